@@ -136,7 +136,12 @@ func (b *Bundle) Plus(kind string) {
 		op["parameters"] = jx.Arr{jx.Obj{"name": "q", "in": "query", "type": "array", "items": jx.Obj{"$ref": "#/definitions/It" + k}}}
 		jx.AsObj(op["responses"])["200"] = jx.Obj{"description": b.lbl("h"), "headers": jx.Obj{"X-H": jx.Obj{"type": "array", "items": jx.Obj{"$ref": "#/definitions/It" + k}}}}
 	case "deepNesting":
-		b.Place(Pick(b.rng, BundleContainers), b.Hold(Pick(b.rng, BundleHolders[1:]), jx.Obj{"$ref": b.Target(Pick(b.rng, BundleTargets), "")}, 6+b.rng.IntN(4), ""), "")
+		t := Pick(b.rng, BundleTargets)
+		leaf := b.InlineLeaf(t)
+		if leaf == nil {
+			leaf = jx.Obj{"$ref": b.Target(t, "")}
+		}
+		b.Place(Pick(b.rng, BundleContainers), b.Hold(Pick(b.rng, BundleHolders[1:]), leaf, 6+b.rng.IntN(4), ""), "")
 	case "pathItemRefDangling":
 		jx.AsObj(b.Root["paths"])[b.newPath()] = jx.Obj{"$ref": Pick(b.rng, []string{"#/x-nowhere/item", "nofile.json#/x/y", "#/definitions"})}
 	case "sharedRefToRemote", "sharedRefToMissing":
